@@ -592,7 +592,7 @@ func buildTables(c *fw.Ctx) (*tables, error) {
 		{"BV", "Spec", `{"div"}`, "TypeOK SaneDiv Emit", 3},
 		{"BV", "Spec", `{"arith", "unary", "conv", "strconv", "str", "bool"}`, "TypeOK SaneArith SaneUnary SaneConv SaneStr SaneStrConv Emit", 2},
 		{"BV", "Spec", `{"cmp", "shift"}`, "TypeOK SaneCmp SaneShift Emit", 2},
-		{"FloatSym", "FSpec", `{"farith", "fconv", "itof", "carith"}`, "SaneFArith SaneFConv SaneIToF SaneCArith FEmit", 1},
+		{"FloatSym", "FSpec", `{"farith", "fcon", "fconv", "itof", "carith"}`, "SaneFArith SaneFCon SaneFConv SaneIToF SaneCArith FEmit", 2},
 		{"OpSeq", "SSpec", `{"sarith", "sdiv", "scmp", "sshift", "sunary", "sconv", "scmpfeed", "sbool", "sstr", "sfarith", "sfcmpfeed", "sfconv", "scomplex"}`,
 			"SeqCover HistoryFree RepsOK SEmit", 1},
 	}
